@@ -213,6 +213,8 @@ def table():
             cell += (f' - *no longer demonstrable at repo {rd["repo_head"]}: its own demonstration '
                      + ('fails on the unchanged tree too' if rd.get('demo_without_change_rc') else 'passes with the change applied')
                      + ' (a later `fix:` commit removed what it needed)*')
+        if meta.get('manual_note'):
+            cell += f' - *{meta["manual_note"]}*'
         if meta.get('rebased'):
             cell += f' - *patch re-applied by hand onto {meta["rebased"]["onto"]}*'
         rows.append(f'| {seed} | {meta["property"]} | {notes} | {cell} |')
